@@ -10,6 +10,10 @@ model's text contain the `Stub()` text, directives, doc lines, package name,
 constraint lines and generated-by text character for character
 (`stub_tokens_verbatim`), and the acceptor `acceptVerbatim`, run on the real
 formatted file, compares every declaration with `Stub()` up to layout only.
+Part 5: the configuration layer (`build.NewFlags`/`Flags.Config`): which package
+a command line yields (explicit `-pkg` wins, otherwise the working directory's
+base name; never the output directories), and that both files are printed
+under that one configuration.
 Validity, gofmt-stability, type identity and linkability of the formatted file
 are measured by the harness (go/format and go/types are not modelled).
 -/
@@ -1119,5 +1123,135 @@ theorem format_string_corrupts_declaration :
   constructor <;> decide
 
 example : squash "func f(s struct{a int; b int})".toList = squash "func f(s struct {\n\ta int\n\tb int\n})".toList := by decide
+
+/-! ## 5. The configuration layer: which package a command line yields -/
+
+/-- **cli_explicit_pkg_wins.** An explicit, non-empty `-pkg` is the package —
+whatever the working directory and wherever `-out` / `-stubs` point. -/
+theorem cli_explicit_pkg_wins (cwdBase : Txt) (fl : CliFlags) (h : fl.pkg ≠ []) (o s : Dest) :
+    cliPkg cwdBase { fl with out := o, stubs := s } = fl.pkg := by
+  cases hp : fl.pkg with
+  | nil => exact absurd hp h
+  | cons c r => simp [cliPkg]
+
+/-- **cli_default_pkg.** Without `-pkg` (or with an empty one) the package is the
+base name of the working directory — not of any output directory. -/
+theorem cli_default_pkg (cwdBase : Txt) (fl : CliFlags) (h : fl.pkg = []) (o s : Dest) :
+    cliPkg cwdBase { fl with out := o, stubs := s } = cwdBase := by
+  simp [cliPkg, h]
+
+/-- The destination flags (and `-log`, `-cpuprofile`) never change the package. -/
+theorem setFlag_keeps_pkg (fl fl' : CliFlags) (n v : Txt) (h : setFlag fl n v = some fl') (hn : n ≠ fPkg) :
+    fl'.pkg = fl.pkg := by
+  unfold setFlag at h
+  rw [if_neg hn] at h
+  split at h
+  · cases h; rfl
+  · split at h
+    · cases h; rfl
+    · split at h
+      · cases h; rfl
+      · cases h
+
+/-- `-pkg` never changes where the files go. -/
+theorem setFlag_pkg_keeps_dests (fl : CliFlags) (v : Txt) :
+    setFlag fl fPkg v = some { fl with pkg := v } := by
+  simp [setFlag]
+
+/-- One step of the parser on a flag that takes its value from the next argument. -/
+theorem parseArgs_valued (n v : Txt) (rest : List Txt) (fl : CliFlags)
+    (hk : argKind ('-' :: n) = .flag n) (hs : splitEq n = (n, none)) (he : n ≠ ['e']) :
+    parseArgs (('-' :: n) :: v :: rest) fl =
+      (match setFlag fl n v with
+       | some fl' => parseArgs rest fl'
+       | none => none) := by
+  rw [parseArgs]
+  simp only [hk, hs, if_neg he]
+  cases setFlag fl n v <;> rfl
+
+/-- `-pkg P` followed by anything. -/
+theorem parseArgs_pkg_step (p : Txt) (rest : List Txt) (fl : CliFlags) :
+    parseArgs (('-' :: fPkg) :: p :: rest) fl = parseArgs rest { fl with pkg := p } := by
+  rw [parseArgs_valued fPkg p rest fl (by decide) (by decide) (by decide), setFlag_pkg_keeps_dests]
+
+theorem parseArgs_stubs_step (s : Txt) (rest : List Txt) (fl : CliFlags) :
+    parseArgs (('-' :: fStubs) :: s :: rest) fl = parseArgs rest { fl with stubs := destOf s } := by
+  rw [parseArgs_valued fStubs s rest fl (by decide) (by decide) (by decide)]
+  have : setFlag fl fStubs s = some { fl with stubs := destOf s } := by
+    unfold setFlag
+    rw [if_neg (by decide), if_neg (by decide), if_pos rfl]
+  rw [this]
+
+theorem parseArgs_out_step (s : Txt) (rest : List Txt) (fl : CliFlags) :
+    parseArgs (('-' :: fOut) :: s :: rest) fl = parseArgs rest { fl with out := destOf s } := by
+  rw [parseArgs_valued fOut s rest fl (by decide) (by decide) (by decide)]
+  have : setFlag fl fOut s = some { fl with out := destOf s } := by
+    unfold setFlag
+    rw [if_neg (by decide), if_pos rfl]
+  rw [this]
+
+/-- **cli_cmdline_pkg.** The command line of seeded change C12-9, for ALL
+names: `-out A -stubs S -pkg P` with `P` non-empty yields package `P` for every
+working directory and all paths `A`, `S` (whatever their directories). -/
+theorem cli_cmdline_pkg (cwdBase a s p : Txt) (hp : p ≠ []) :
+    (parseArgs [('-' :: fOut), a, ('-' :: fStubs), s, ('-' :: fPkg), p] CliFlags.init).map (cliPkg cwdBase) = some p := by
+  rw [parseArgs_out_step, parseArgs_stubs_step, parseArgs_pkg_step]
+  cases p with
+  | nil => exact absurd rfl hp
+  | cons c r => simp [parseArgs, cliPkg]
+
+/-- **cli_stub_package_clause.** For every working directory, command line
+(argv), flag values and file: the stub text produced under the configuration
+has the package clause `cliPkg` and declares each function of the file once. -/
+theorem cli_stub_package_clause (cwdBase : Txt) (argv : List Txt) (fl : CliFlags) (f : File) (ls : List SLine)
+    (h : cliStubs cwdBase argv fl f = some ls) :
+    parseStubs ls = some (cliPkg cwdBase fl, f.functions.map declSum) := by
+  unfold cliStubs at h
+  split at h
+  · cases h
+  · cases h; exact parse_stubs (cliConfig cwdBase argv fl) f
+
+/-- … and on the BYTES, under the token hypotheses: exactly one package clause, `cliPkg`. -/
+theorem cli_stub_text_package (cwdBase : Txt) (argv : List Txt) (fl : CliFlags) (f : File)
+    (h : WFStubs (cliConfig cwdBase argv fl) f) :
+    StubTextOK (cliConfig cwdBase argv fl) f (render (printStubs (cliConfig cwdBase argv fl) f)) ∧
+    (cliConfig cwdBase argv fl).pkg = cliPkg cwdBase fl :=
+  ⟨stub_text_reads_back _ f h, rfl⟩
+
+/-- **cli_pair_same_config.** Both files of a command line are printed under
+the SAME configuration: same generated-code comment, same constraint block,
+declarations = TEXT lines. -/
+theorem cli_pair_same_config (names) (cwdBase : Txt) (argv : List Txt) (fl : CliFlags) (f : File)
+    (ss as : List SLine) (hs : cliStubs cwdBase argv fl f = some ss) (ha : cliAsm names cwdBase argv fl f = some as) :
+    ss.head? = as.head? ∧
+    (∃ rest, ss = .comment (generatedWarning (cliConfig cwdBase argv fl)) :: (stubConstraints f ++ rest)) ∧
+    (∃ rest, as = .comment (generatedWarning (cliConfig cwdBase argv fl)) :: (asmConstraints f ++ rest)) ∧
+    (declLines ss).length = (textLines as).length := by
+  have es : ss = printStubs (cliConfig cwdBase argv fl) f := by
+    unfold cliStubs at hs; split at hs <;> simp_all
+  have ea : as = printFile names (cliConfig cwdBase argv fl) f := by
+    unfold cliAsm at ha; split at ha <;> simp_all
+  subst es ea
+  obtain ⟨⟨r1, h1⟩, ⟨r2, h2⟩⟩ := constraints_position names (cliConfig cwdBase argv fl) f
+  refine ⟨by rw [h1, h2]; rfl, ⟨r1, h1⟩, ⟨r2, h2⟩, (stubs_match_asm names _ f).2.2⟩
+
+/-! Non-vacuity: the C12-9 command line in a module major-version directory -/
+
+example : parseArgs ["-out".toList, "../v2/add_amd64.s".toList, "-stubs".toList, "../v2/add_stub.go".toList, "-pkg".toList, "xxhash".toList] CliFlags.init
+    = some ⟨"xxhash".toList, .file "../v2/add_amd64.s".toList, .file "../v2/add_stub.go".toList⟩ := by decide +kernel
+
+example : (parseArgs ["-stubs=/m/xxhash/v2/stub.go".toList, "--pkg=xxhash".toList, "-e".toList, "--".toList, "-pkg".toList, "v2".toList] CliFlags.init).map (cliPkg "asm".toList)
+    = some "xxhash".toList := by decide +kernel
+
+example : (parseArgs ["-stubs".toList, "-".toList, "-out=x.s".toList] CliFlags.init).map (fun fl => (cliPkg "go-foo".toList fl, fl.stubs))
+    = some ("go-foo".toList, .stdout) := by decide +kernel
+
+example : parseArgs ["-pkg".toList] CliFlags.init = none := by decide +kernel
+example : parseArgs ["-nosuch=1".toList] CliFlags.init = none := by decide +kernel
+example : parseArgs ["-e=maybe".toList] CliFlags.init = none := by decide +kernel
+example : parseArgs ["-pkg".toList, "a".toList, "-pkg".toList, "b".toList] CliFlags.init = some ⟨['b'], .stdout, .none⟩ := by decide +kernel
+
+example : (cliStubs "v2".toList ["go".toList, "run".toList, "asm.go".toList] ⟨"xxhash".toList, .stdout, .file "v2/stub.go".toList⟩ exStubFile).map parseStubs
+    = some (some ("xxhash".toList, exStubFile.functions.map declSum)) := by decide +kernel
 
 end Avo.Print
